@@ -286,6 +286,12 @@ func (x *Exec) callByContract(st *State, fr *Frame, call *ssa.Call, callee *ssa.
 			penv["&"+p.Name()] = SV{T: t, Typ: p.Type()}
 		}
 	}
+	// an argument boxed from a statically known type: the abstract spec functions of its interface take that type's definitions
+	for i, p := range callee.Params {
+		if _, isIface := types.Unalias(p.Type()).Underlying().(*types.Interface); isIface {
+			x.linkAbstractDefinitions(st, penv[p.Name()], p.Type(), args[i])
+		}
+	}
 	pre := st.snapshot()
 	env := &Env{x: x, st: pre, old: pre, vars: copyVars(penv), pkg: callee.Package(), allocOld: pre.alloc}
 	cname := callee.Name()
@@ -863,4 +869,64 @@ func (x *Exec) boolSummary(st *State, fn *ssa.Function, bindings []Val, args []V
 		alts = append(alts, And(append(append([]*Term{}, r.pc...), r.rets[0].T)...))
 	}
 	return Or(alts...)
+}
+
+
+// linkAbstractDefinitions: the argument v (of interface type it) is box_T(...) for a statically known T.  Every method of T
+// whose contract says "refines I.M with abs=conc" gives, for one-parameter abstract spec functions abs, the fact
+// abs(v) == conc(v) in the current state (the object is assumed not to change while the abstract value is in use).
+func (x *Exec) linkAbstractDefinitions(st *State, v SV, it types.Type, arg Val) {
+	if v.T == nil || v.T.Kind != kApp || !strings.HasPrefix(v.T.Op, "box_") {
+		return
+	}
+	var bt types.Type
+	for _, tt := range x.TI.tagTypes {
+		if x.TI.boxName(tt) == v.T.Op {
+			bt = tt
+		}
+	}
+	if bt == nil {
+		return
+	}
+	ms := x.prog.MethodSets.MethodSet(bt)
+	for i := 0; i < ms.Len(); i++ {
+		m := x.prog.MethodValue(ms.At(i))
+		if m == nil || m.Pkg == nil {
+			continue
+		}
+		fs := x.DB.Funcs[funcKey(m)]
+		if fs == nil {
+			continue
+		}
+		for _, rf := range fs.Refines {
+			ip := rf.IfaceMethod
+			if j := strings.Index(ip, "."); j >= 0 {
+				ip = ip[:j]
+			}
+			for abs, conc := range rf.Subst {
+				as := x.DB.LookupSpec("", ip+"."+abs)
+				if as == nil || len(as.Params) != 1 || as.Body != nil {
+					continue
+				}
+				key := "link:" + abs + ":" + v.T.String()
+				if _, done := st.ghost[key]; done {
+					continue
+				}
+				env := &Env{x: x, st: st, old: st, vars: map[string]SV{"linked__": {T: v.T, Typ: it}}, pkg: m.Pkg, allocOld: st.alloc}
+				e := &EBinary{Op: "==", X: &ECall{Fn: ip + "." + abs, Args: []Expr{&EIdent{Name: "linked__"}}}, Y: &ECall{Fn: conc, Args: []Expr{&EIdent{Name: "linked__"}}}}
+				func() {
+					defer func() {
+						if r := recover(); r != nil {
+							x.note("abstract %s not linked to %s for %s: %v", abs, conc, bt, r)
+						}
+					}()
+					t := x.evalBool(env, e)
+					st.assume(And(env.takeSide()...))
+					st.assume(t)
+					st.ghost[key] = TTrue
+					x.note("abstract %s taken as %s for an argument of static type %s", abs, conc, bt)
+				}()
+			}
+		}
+	}
 }
